@@ -9,9 +9,10 @@ CONSTANTS
   Faults = {"fail", "crash"}
   Exclusive = FALSE
   Match <- MCMatch
+  Canon <- MCCanon
   Endpoints <- MCEndpoints
 INIT Init
 NEXT Next
 VIEW View
-INVARIANTS TypeOK DurableDisk Durable MemDiskAgree
+INVARIANTS TypeOK DurableDisk Durable NoSpurious MemDiskAgree
 PROPERTIES WriteBeforeMem NeverAdmitted DialRefusedEarly ClosedAtAccept ClosedAfterHandshake NotOverBlocking
